@@ -573,6 +573,10 @@ func (sh *Shell) parseOp(r *shellRun, w []string) *OpInst {
 		return w[i]
 	}
 	for ; i < len(w); i++ {
+		if strings.HasPrefix(w[i], "-i=") {
+			o.Inputs = append(o.Inputs, w[i][3:])
+			continue
+		}
 		switch w[i] {
 		case "-i":
 			o.Inputs = append(o.Inputs, need())
